@@ -8,6 +8,7 @@ import (
 	"reflect"
 
 	"github.com/boombuler/barcode"
+	"pgregory.net/rapid"
 )
 
 // modules1D reads a plain (black on white) 1D barcode into a module row. Any pixel that is
@@ -164,4 +165,20 @@ func foreignWarmup(own ...string) {
 			encodeSpec(s)
 		}
 	}
+}
+
+// latin1Text: valid UTF-8 text whose runes are all <= U+00FF (ASCII letters mixed with U+00A0..U+00FF), the input
+// class that "helpful" transcoding to ISO-8859-1 would silently change ("café", "Ã©", "£5", "°").
+func latin1Text(t *rapid.T, maxRunes int) string {
+	n := rapid.IntRange(1, maxRunes).Draw(t, "l1n")
+	r := make([]rune, n)
+	for i := range r {
+		if rapid.IntRange(0, 2).Draw(t, "l1k") == 0 {
+			r[i] = rune(rapid.IntRange(0xA0, 0xFF).Draw(t, "l1hi"))
+		} else {
+			r[i] = rune("abcdefghij ABC012"[rapid.IntRange(0, 16).Draw(t, "l1lo")])
+		}
+	}
+	r[rapid.IntRange(0, n-1).Draw(t, "l1pos")] = rune(rapid.SampledFrom([]int{0xE9, 0xC3, 0xA9, 0xA0, 0xB0, 0xA3, 0xFC, 0xFF, 0xC2}).Draw(t, "l1one"))
+	return string(r)
 }
